@@ -15,19 +15,21 @@ def freeze(x):
 
 
 class Stateless(flow.Actor):
-    """f(x1..xn) -> term, or a tuple of szout projections of it."""
+    """f(x1..xn) -> term, or a tuple of szout projections of it. With `mark` (a callable returning (name, hp)) the
+    identity of the symbol lives in a hyper-parameter whose repr is lossy (a lambda)."""
 
-    def __init__(self, name, szout=1, hp=0):
-        self.name, self.szout, self.hp = name, szout, hp
+    def __init__(self, name, szout=1, hp=0, mark=None):
+        self.name, self.szout, self.hp, self.mark = name, szout, hp, mark
 
     def apply(self, *args):
-        term = ('app', self.name, self.hp, None, freeze(args))
+        name, hp = self.mark() if self.mark else (self.name, self.hp)
+        term = ('app', name, hp, None, freeze(args))
         if self.szout == 1:
             return term
         return tuple(('proj', i, term) for i in range(self.szout))
 
     def get_params(self):
-        return {'name': self.name, 'szout': self.szout, 'hp': self.hp}
+        return {'name': self.name, 'szout': self.szout, 'hp': self.hp, 'mark': self.mark}
 
     def set_params(self, **params):
         for k, v in params.items():
@@ -60,3 +62,44 @@ class Stateful(Stateless):
 
 def builder(name, stateful=False, szout=1, hp=0):
     return (Stateful if stateful else Stateless).builder(name, szout=szout, hp=hp)
+
+
+class Source(flow.Actor):
+    """Constant symbolic data source: ignores whatever it is called with (pyfunc hands it the request entry)."""
+
+    def __init__(self, name='src', szout=1, hp=0):
+        self.name, self.szout, self.hp = name, szout, hp
+
+    def apply(self, *args):
+        term = ('app', self.name, self.hp, None, ())
+        if self.szout == 1:
+            return term
+        return tuple(('proj', i, term) for i in range(self.szout))
+
+    def get_params(self):
+        return {'name': self.name, 'szout': self.szout, 'hp': self.hp}
+
+    def set_params(self, **params):
+        for k, v in params.items():
+            setattr(self, k, v)
+
+
+class Recorder(flow.Actor):
+    """Sink: appends the term it receives to a file (works under every dask scheduler) and passes it on."""
+
+    def __init__(self, name='sink', path=None, hp=0):
+        self.name, self.path, self.hp = name, path, hp
+
+    def apply(self, *args):
+        term = ('app', self.name, self.hp, None, freeze(args))
+        if self.path:
+            with open(self.path, 'a') as out:
+                out.write(json.dumps(term) + '\n')
+        return term
+
+    def get_params(self):
+        return {'name': self.name, 'path': self.path, 'hp': self.hp}
+
+    def set_params(self, **params):
+        for k, v in params.items():
+            setattr(self, k, v)
